@@ -438,6 +438,26 @@ func checkC14(c *Ctx) {
 			ea("numeric-on-non-number", d, v)
 		}
 	}
+	// a precision of five or more digits is no rendering anybody can ask for: an error, whatever
+	// the number of digits (also where a 32- or 64-bit counter would have wrapped around)
+	{
+		precs := []string{"10001", "99999", "4294967296", "4294967298", "9223372036854775807", "9223372036854775808", "9999999999999999999", "18446744073709551615", "18446744073709551616", "18446744073709551618", "18446744073709552616", "36893488147419103232", "36893488147419103234", "340282366920938463463374607431768211456", "340282366920938463463374607431768211458"}
+		for n := 5; n <= 45; n++ {
+			b := make([]byte, n)
+			for k := range b {
+				b[k] = byte('0' + rng.Intn(10))
+			}
+			if b[0] == '0' {
+				b[0] = '1'
+			}
+			precs = append(precs, string(b))
+		}
+		for _, pr := range precs {
+			for _, suf := range []string{"", "E", "%"} {
+				ea("absurd-precision", "{#."+pr+suf+"}", Num(1.5))
+			}
+		}
+	}
 	cases = append(cases, errT...)
 	// undocumented combinations: crash freedom only
 	for _, d := range []string{"{#E}", "{#%}", "{#+.2}", "{#+.2E}", "{#+.1%}", "{#+E}", "{#.}", "{#.E}", "{#.99999999999999999999}", "{#.4294967296}", "{#.18446744073709551616}", "{#.999999999}", "{#.2000}", "{#.1000001}"} {
